@@ -138,6 +138,29 @@ def directed_cases(rng, n):
         yield Case("directed:shared-vs-separate", None, None, True,
                    f"a=Bin(x, x) with x shared (wrapped {depth}x), b=Bin(x1, x2) separate copies, origin of a grandchild changed in: {which}",
                    oracle_fail=fail, sig="eq|directed|shared-vs-separate")
+        # (3) two distinct objects with the SAME id (the id encodes only the node's own content / origin and its direct
+        #     children's): a replace() that keeps the id, or a rebuild after detach; origins differ at depth >= 2
+        oa, ob = zoo.gen_origin(rng), zoo.gen_origin(rng)
+        while type(oa) is type(ob) and oa == ob:
+            ob = zoo.gen_origin(rng)
+        mk = lambda og: zoo.Un(zoo.Leaf(v=5, origin=og), origin=o[1])  # noqa
+        old = zoo.Un(mk(oa), origin=o[0])
+        how = rng.choice(["replace", "detach-rebuild"])
+        if how == "replace":
+            new = old.replace(arg=mk(ob))
+        else:
+            old.detach()
+            new = zoo.Un(mk(ob), origin=o[0])
+        third = zoo.Un(mk(oa), origin=o[0])
+        got = (old == new, new == old, old != new, old == third, third == new)
+        fail = None
+        if got != (False, False, True, True, False):
+            fail = (f"(old == new, new == old, old != new, old == copy, copy == new) = {got}, expected (False, False, True, True, False): "
+                    f"same id: {old.id == new.id}; the origins of the grandchildren differ")
+        yield Case("directed:same-id-other-origin", None, None, True,
+                   f"old=Un(Un(Leaf@A)); new by {how} with Leaf@B below an equal child (ids equal: {old.id == new.id})",
+                   oracle_fail=fail, sig="eq|directed|same-id-other-origin")
+        del old, new, third
         v = rng.randint(0, 3)
         b0, s0 = _ShadeBase(v=v), Shade(v=v)
         first, second = _twin_class(), _twin_class()
